@@ -54,7 +54,7 @@ NoItem == [v |-> -1, src |-> -1, idxs |-> <<>>, brk |-> FALSE]
 NoRes == [set |-> FALSE, ok |-> TRUE, val |-> -1]
 
 FsInit(c) ==
-  [announced |-> c.cont # "vec",
+  [announced |-> FALSE,         \* construction done (items of a Vec source handed in, `coview` reported)
    phase |-> "race",          \* "race" | "wait" | "bp" | "flush" | "done"
    raceOff |-> 0,             \* Indexer offset of the current race instance
    todo |-> <<>>, arm |-> "none",
@@ -79,15 +79,39 @@ TakeReached(f) == \E i \in 1..Len(Stack) : Stack[i].k = "take" /\ f.cnt[i] >= St
 CoCpoll(c, k, w) == EvCpoll(c, k, IF TraceMode THEN -7 ELSE WidIn(Seen1(w), w), IF w[1] = "p" THEN w[2] ELSE -1)
 
 ---------------------------------------------------------------------------
-(* Vec::into_co_stream: the items are handed in at construction; the harness announces them as   *)
-(* answers of the (non-existent) source child                                                      *)
+(* Construction.  Vec::into_co_stream: the items are handed in at construction; the harness announces them as    *)
+(* answers of the (non-existent) source child.  Then the assembled concurrent stream is asked what it reports     *)
+(* about itself before it is driven (`coview`): size_hint() as plumbed through the adapter stack (from_stream.rs:  *)
+(* the source stream's hint; map / enumerate / limit: the inner hint unchanged; take.rs: both bounds capped at the *)
+(* limit, an absent upper bound becomes the limit) and concurrency_limit() (limit.rs: its own argument, None for   *)
+(* limit(0); every other adapter: the inner one; the source: None).  The source's hint is an input (cfg.srcHint =  *)
+(* <<lower, upper or -1>>); nothing else may depend on it.  Deliberate deviation kept as the code has it: the      *)
+(* concurrent stream of a Vec (collections/vec.rs) does not forward its inner hint and reports the trait's         *)
+(* default (0, None) although its length is known.                                                                 *)
+HCap(x) == IF x > 1000000 THEN 1000000 ELSE x
+SrcHint == IF SrcVec THEN <<0, -1>> ELSE Opt(cfg, "srcHint", <<0, -1>>)
+RECURSIVE HintThrough(_, _)
+HintThrough(h, i) ==          \* the hint after the adapters Stack[i..]
+  IF i > Len(Stack) THEN h
+  ELSE IF Stack[i].k = "take"
+         THEN LET n == Stack[i].n IN
+              HintThrough(<<IF h[1] < n THEN h[1] ELSE n, IF h[2] >= 0 /\ h[2] < n THEN h[2] ELSE n>>, i + 1)
+         ELSE HintThrough(h, i + 1)
+RECURSIVE LimThrough(_, _)
+LimThrough(l, i) == IF i > Len(Stack) THEN l ELSE LimThrough(IF Stack[i].k = "limit" THEN Stack[i].n ELSE l, i + 1)
+CoViewEv == LET h == HintThrough(SrcHint, 1) IN
+  [e |-> "coview", slo |-> HCap(SrcHint[1]), shi |-> HCap(SrcHint[2]), lo |-> HCap(h[1]), hi |-> HCap(h[2]), lim |-> HCap(LimThrough(0, 1))]
+
 Announce ==
   /\ pc = "idle" /\ ~fs.announced
   /\ fs' = [fs EXCEPT !.announced = TRUE]
-  /\ nit' = [nit EXCEPT ![0] = N]
-  /\ ans' = [ans EXCEPT ![0] = "done"]
-  /\ alive' = [alive EXCEPT ![0] = FALSE]
-  /\ Emit([i \in 1..N |-> EvCret(0, i - 1, "some", TRUE, i - 1)] \o <<EvCret(0, N, "none", TRUE, -1)>>)
+  /\ IF SrcVec
+       THEN /\ nit' = [nit EXCEPT ![0] = N]
+            /\ ans' = [ans EXCEPT ![0] = "done"]
+            /\ alive' = [alive EXCEPT ![0] = FALSE]
+            /\ Emit([i \in 1..N |-> EvCret(0, i - 1, "some", TRUE, i - 1)] \o <<EvCret(0, N, "none", TRUE, -1), CoViewEv>>)
+       ELSE /\ UNCHANGED <<nit, ans, alive>>
+            /\ Emit(<<CoViewEv>>)
   /\ UNCHANGED <<cfg, rd, pc, cur, pend, polls, handed, firedL, gen, wokenL, started, final, needPoll,
                  nfire, nstale, nspur, ninfire, seen, conc, quiesced>>
 
